@@ -241,6 +241,21 @@ def extra(uni, tier, seed):
                          replay={"confirmed": True, "input_class": kf,
                                  "entry": name, "model": detail,
                                  "solver": how}))
+    from realise import C17 as R
+    ren = R.renaming_cases()
+    for pair, ok, detail in ren:
+        if not ok:
+            out.append(Extra(
+                f"bounded#consistent-renaming[{pair}]", False, detail,
+                bounded=True, kind="bounded run-time contract: reserved "
+                "names and their renamed variants in one comparison",
+                replay={"confirmed": True, "input": {"pair": pair},
+                        "observed": detail}))
+    out.append(Extra("bounded#consistent-renaming",
+                     True, f"{sum(1 for r in ren if r[1])} pairs decided "
+                     "correctly", kind="bounded run-time contract: 8 pairs "
+                     "over reserved names", count=sum(1 for r in ren if r[1]),
+                     bounded=True))
     out.append(Extra("translation#all-entries",
                      True, f"{len(res)} obligations, "
                      f"{sum(1 for r in res if r[1])} discharged",
